@@ -740,7 +740,7 @@ func vcRunCase(t *testing.T, out *verifOut, cs string, rng *rand.Rand, script []
 func vcRunScript(c *vcCase, out *verifOut, cs string, script []string) {
 	for _, op := range script {
 		toks := strings.Fields(op)
-		if len(toks) == 0 || toks[0] == "reset" || toks[0] == "START" || toks[0] == "end" {
+		if len(toks) == 0 || toks[0] == "reset" || toks[0] == "START" || toks[0] == "end" || toks[0] == "sess" { // "sess": a case of stream sess (zz_verif_sesslevel_test.go)
 			continue
 		}
 		synctest.Wait()
